@@ -220,7 +220,7 @@ class DnsRecordDnskey(ParsableBase, Serializable):
     @staticmethod
     def _compose_public_key_ecdsa(key_composer, key):
         key_params = key.params
-        key_size = key.key_size // 8
+        key_size = key_params.named_group.value.size // 8
         key_composer.compose_mpint(key_params.point_x, key_size)
         key_composer.compose_mpint(key_params.point_y, key_size)
 
